@@ -1,8 +1,6 @@
 package core
 
 import (
-	"fmt"
-
 	"github.com/coreruleset/crs-toolchain/v2/zz_verif/verifrt"
 )
 
@@ -13,9 +11,13 @@ type Point struct {
 }
 
 type Exec struct {
-	Choices []int   `json:"choices"`
-	Points  []Point `json:"points"`
+	Choices  []int   `json:"choices"`
+	Points   []Point `json:"points"`
+	Diverged bool    `json:"diverged,omitempty"` // the execution did not follow the recorded prefix: hidden state
 }
+
+// Divergences counts executions that did not reproduce the choice points of their schedule prefix.
+var Divergences int
 
 func (e *Exec) Deviations() int {
 	d := 0
@@ -46,7 +48,8 @@ func (s *schedRun) choose(site string, n int) int {
 	if i < len(s.prefix) {
 		c = s.prefix[i]
 		if c >= n {
-			panic(fmt.Sprintf("schedule divergence at point %d (%s): choice %d of %d", i, site, c, n))
+			s.exec.Diverged = true
+			c = 0
 		}
 	}
 	s.exec.Choices = append(s.exec.Choices, c)
@@ -61,7 +64,10 @@ func RunSchedule(prefix []int, f func()) *Exec {
 	defer func() { verifrt.Choose = nil }()
 	f()
 	if len(s.exec.Choices) < len(prefix) {
-		panic(fmt.Sprintf("schedule divergence: prefix of %d choices but only %d points reached", len(prefix), len(s.exec.Choices)))
+		s.exec.Diverged = true
+	}
+	if s.exec.Diverged {
+		Divergences++
 	}
 	return &s.exec
 }
@@ -84,6 +90,9 @@ func ExploreSchedules(bound, maxExecs int, f func(), visit func(e *Exec)) (execs
 		Tick()
 		execs++
 		visit(e)
+		if e.Diverged {
+			return
+		}
 		dev := 0
 		for i := 0; i < len(e.Choices); i++ {
 			if i >= len(prefix) {
